@@ -3,6 +3,8 @@ import XcmModel.Ux
 import XcmModel.Wire
 import XcmModel.AttrAccess
 import XcmModel.TcpOpts
+import XcmModel.Xpoll
+import XcmModel.AttrPath
 /-!
   The translated functions (extract/ext_funcs.py: clang's AST of /repo's working tree, regenerated on every run) are
   equal to the hand-written model functions, for **all** arguments.  For these functions the tie between model and
@@ -77,5 +79,17 @@ theorem tcp_opts_equal_tie (a b : TcpOpts.Opts)
     · have : x.toNat ≠ y.toNat := by omega
       simp [h, this]
   rw [e _ _ ha.1 hb.1, e _ _ ha.2.1 hb.2.1, e _ _ ha.2.2.1 hb.2.2.1, e _ _ ha.2.2.2 hb.2.2.2]
+
+/-- `next_capacity` of xpoll.c (growth of the registration tables) is the model's `Xpoll.nextCapacity` -/
+theorem next_capacity_tie (c : Nat) : Funcs.next_capacity c = Xpoll.nextCapacity c := rfl
+
+/-- `is_special` / `is_key_char` of attr_path.c are the model's `AttrPath.isSpecial` / `isKeyChar` on every byte
+(the whole table of 256 bytes is evaluated by the kernel) -/
+theorem is_special_tie : ∀ n < 256, Funcs.is_special n = AttrPath.isSpecial (UInt8.ofNat n) := by
+  decide +kernel
+
+theorem is_key_char_tie : ∀ n < 256,
+    Funcs.is_key_char n (Funcs.is_special n) = AttrPath.isKeyChar (UInt8.ofNat n) := by
+  decide +kernel
 
 end XcmModel.FuncsTie
